@@ -10,6 +10,11 @@
   kind = user  : a subclass of BatchBase written in the harness (`_flush` interprets the script of the batch,
                  `_try_switch_active_batch` installs a fresh batch in the service's slot)
   kind = debug : the built-in DebugBatch / DebugBatchItem (`_flush` sets every item to its `_result`)
+
+  Items may carry two harness-written on_computed callbacks (both kinds): `spawn` issues a new request to the
+  service, `link` completes a *sibling* item (an item of the same batch that is still pending) - so an item of the
+  batch can get completed by somebody else while the library is busy completing the batch's items
+  (`BatchBase._computed`), while the flush body walks them (`DebugBatch._flush`), or from a script statement.
 -/
 namespace AsynqModel.Batching
 
@@ -43,10 +48,22 @@ inductive Act where
 
 abbrev Script := List Act
 
+/-- harness on_computed callback of an item that completes a sibling: when the item completes, and item `target`
+    (global creation index) exists, belongs to the same batch and is not computed yet, then
+    `items[target].set_value(vals[tok])` resp. `.set_error(errs[tok])` -/
+structure Link where
+  target : Nat
+  isErr : Bool
+  tok : Nat
+  deriving Repr, DecidableEq, Inhabited
+
+def Link.outc (l : Link) : Outc := if l.isErr then .err (.user l.tok) else .val l.tok
+
 structure Item where
   batch : Nat              -- `item.batch`
   payload : Nat            -- harness attribute / `DebugBatchItem._result`
   spawn : Option Nat       -- harness on_computed callback: issue a new request with this payload when completed
+  link : Option Link       -- harness on_computed callback: complete a pending sibling (runs after `spawn`)
   out : Option Outc        -- `_value is not _none`, with `_error`
   deriving Repr, DecidableEq, Inhabited
 
@@ -59,6 +76,7 @@ structure Batch where
 /-- the whole observable state; it is also the snapshot the harness takes after every operation -/
 structure St where
   kind : Kind
+  keep : Bool := false     -- debug option KEEP_DEPENDENCIES (a configuration: set before the history starts)
   active : Nat             -- `service.active` / `_debug_batch_state.batches[name]`
   batches : List Batch
   items : List Item
@@ -67,14 +85,16 @@ structure St where
 /-- what the harness's hooks log while an operation runs, in order -/
 inductive Ev where
   | body (b act : Nat)                       -- `_flush` of batch b starts; `act` = the active batch at that moment
-  | item (i : Nat) (o : Outc) (byBody : Bool)  -- on_computed of item i (outcome peeked); byBody = set by a script statement
+  | item (i : Nat) (o : Outc) (byBody : Bool)  -- on_computed of item i (outcome peeked); byBody = set by harness code
+                                             -- (a script statement or a sibling's `link` callback), not by the library
   | created (i b : Nat) (src : Option Nat)   -- item i constructed on batch b; src = batch whose flush/completion issued it
   | createFail (src : Nat)                   -- a request issued from an item callback failed its constructor assert
   | announce (b : Nat) (pend : List Nat) (act : Nat)  -- on_computed of batch b; pend = its items not computed right now
   deriving Repr, DecidableEq, Inhabited
 
 inductive Op where
-  | add (p : Nat) (spawn : Option Nat)   -- service.request(p) / DebugBatchItem(name, p): joins the active batch
+  | add (p : Nat) (spawn : Option Nat) (link : Option Link)  -- service.request(p) / DebugBatchItem(name, p) / sync(tag):
+                                         -- joins the active batch; the harness subscribes the callbacks
   | addTo (b p : Nat)                    -- Item(batch_b, p): construct an item directly on a given batch
   | flush (b : Nat)
   | cancel (b : Nat) (e : Option Nat)
@@ -85,7 +105,7 @@ inductive Op where
   deriving Repr, DecidableEq, Inhabited
 
 def Op.name : Op → String
-  | .add _ _ => "add" | .addTo _ _ => "addTo" | .flush _ => "flush" | .cancel _ _ => "cancel"
+  | .add _ _ _ => "add" | .addTo _ _ => "addTo" | .flush _ => "flush" | .cancel _ _ => "cancel"
   | .itemValue _ => "itemValue" | .batchValue _ => "batchValue" | .batchError _ => "batchError"
   | .isFlushed _ => "isFlushed" | .isCancelled _ => "isCancelled" | .isEmpty _ => "isEmpty"
   | .itemComputed _ => "itemComputed"
@@ -124,6 +144,8 @@ def St.incRuns (s : St) (b : Nat) : St :=
   { s with batches := s.batches.modify b fun B => { B with runs := B.runs + 1 } }
 def St.clearItems (s : St) (b : Nat) : St :=
   { s with batches := s.batches.modify b fun B => { B with items := [] } }
+/-- `if not _debug.options.KEEP_DEPENDENCIES: self.items.clear()` (batching.py:90-91) -/
+def St.clearUnlessKept (s : St) (keep : Bool) (b : Nat) : St := if keep then s else s.clearItems b
 
 /-- items whose `.batch` is b and that are not computed (what the harness evaluates inside b's on_computed) -/
 def St.pendingOf (s : St) (b : Nat) : List Nat :=
@@ -132,8 +154,8 @@ def St.pendingOf (s : St) (b : Nat) : List Nat :=
     | some it => it.batch == b && it.out.isNone
     | none => false
 
-def init (k : Kind) : St :=
-  { kind := k, active := 0, batches := [{ out := none, items := [], runs := 0 }], items := [] }
+def init (k : Kind) (keep : Bool := false) : St :=
+  { kind := k, keep := keep, active := 0, batches := [{ out := none, items := [], runs := 0 }], items := [] }
 
 /-! ## the library code -/
 
@@ -142,8 +164,8 @@ def St.pushBatch (s : St) : St :=
   { s with active := s.batches.length, batches := s.batches ++ [{ out := none, items := [], runs := 0 }] }
 
 /-- a new uncomputed item, appended to `batch.items` of batch b -/
-def St.pushItem (s : St) (b p : Nat) (spawn : Option Nat) : St :=
-  { s with items := s.items ++ [{ batch := b, payload := p, spawn := spawn, out := none }],
+def St.pushItem (s : St) (b p : Nat) (spawn : Option Nat) (link : Option Link := none) : St :=
+  { s with items := s.items ++ [{ batch := b, payload := p, spawn := spawn, link := link, out := none }],
            batches := s.batches.modify b fun B => { B with items := B.items ++ [s.items.length] } }
 
 /-- `_try_switch_active_batch` (harness subclass; DebugBatch batching.py:254-258): if b is the active batch,
@@ -153,39 +175,66 @@ def switch (s : St) (b : Nat) : St :=
 
 /-- `BatchItemBase.__init__` (batching.py:208-216) on batch b: assert the batch is not flushed, append to
     `batch.items`; the harness logs the creation.  `none` = the assert failed (nothing was changed). -/
-def newItemOn (s : St) (b p : Nat) (spawn src : Option Nat) : Option (St × List Ev) :=
+def newItemOn (s : St) (b p : Nat) (spawn src : Option Nat) (link : Option Link := none) : Option (St × List Ev) :=
   match s.batches[b]? with
   | none => none
   | some B =>
     if B.out.isSome then none
-    else some (s.pushItem b p spawn, [.created s.items.length b src])
+    else some (s.pushItem b p spawn link, [.created s.items.length b src])
+
+/-- the `spawn` callback of an item `it` that has just completed (state `s1`): a new request to the service; a
+    constructor assert failing there is an Exception swallowed by FutureBase._computed (futures.py:131-140) -/
+def spawnPart (s1 : St) (it : Item) : St × List Ev :=
+  match it.spawn with
+  | some p =>
+    match newItemOn s1 s1.active p none (some it.batch) with
+    | some (s2, evs) => (s2, evs)
+    | none => (s1, [.createFail it.batch])
+  | none => (s1, [])
+
+/-- the guard of the `link` callback: item j exists, is an item of batch b, and is not computed -/
+def St.linkFires (s : St) (b j : Nat) : Bool :=
+  match s.items[j]? with
+  | some t => t.batch == b && t.out.isNone
+  | none => false
 
 /-- `set_value` / `set_error` on an uncomputed item (futures.py:66-75,101-109): store, then `_computed` triggers
-    on_computed: the harness callback logs the completion and, if the item has a spawn payload, issues a new
-    request to the service (a constructor assert failing there is an Exception swallowed by
-    FutureBase._computed, futures.py:131-140) -/
-def completeItem (s : St) (i : Nat) (o : Outc) (byBody : Bool) : St × List Ev :=
-  let s1 := s.setItemOut i o
-  match s.items[i]? with
-  | some it =>
-    match it.spawn with
-    | some p =>
-      match newItemOn s1 s1.active p none (some it.batch) with
-      | some (s2, evs) => (s2, .item i o byBody :: evs)
-      | none => (s1, [.item i o byBody, .createFail it.batch])
-    | none => (s1, [.item i o byBody])
-  | none => (s1, [.item i o byBody])
+    on_computed: the harness callback logs the completion, then, if the item has a spawn payload, issues a new
+    request to the service, then, if the item has a link, completes the linked sibling if that is still pending -
+    which runs the sibling's callbacks in turn (nested, before this `set_value` returns).
+    The first argument bounds the nesting depth; every nested call completes another pending item that carries a
+    link, so the number of items is always enough (`completeItem_fuel_enough`). -/
+def completeItem : Nat → St → Nat → Outc → Bool → St × List Ev
+  | 0, s, i, o, byBody =>
+    match s.items[i]? with
+    | some it =>
+      let r := spawnPart (s.setItemOut i o) it
+      (r.1, .item i o byBody :: r.2)
+    | none => (s.setItemOut i o, [.item i o byBody])
+  | fuel + 1, s, i, o, byBody =>
+    match s.items[i]? with
+    | some it =>
+      let r := spawnPart (s.setItemOut i o) it
+      match it.link with
+      | some l =>
+        if r.1.linkFires it.batch l.target then
+          let r3 := completeItem fuel r.1 l.target l.outc true
+          (r3.1, .item i o byBody :: (r.2 ++ r3.2))
+        else (r.1, .item i o byBody :: r.2)
+      | none => (r.1, .item i o byBody :: r.2)
+    | none => (s.setItemOut i o, [.item i o byBody])
 
 /-- the loop of `BatchBase._computed` (batching.py:126-133): every item of the batch that is not computed
-    gets the outcome `o`.  (The Python loop walks the live list `self.items`; nothing can append to it while
-    it runs because the batch is no longer the active one and is computed, so walking the list as it was
-    when the loop started is the same.) -/
+    gets the outcome `o`.  The check `is_computed()` is made when the loop reaches the item: an item completed
+    meanwhile by a sibling's callback is skipped.  (The Python loop walks the live list `self.items`; nothing can
+    append to it while it runs because the batch is no longer the active one and is computed, so walking the
+    list as it was when the loop started is the same.) -/
 def leftovers (o : Outc) : List Nat → St → St × List Ev
   | [], s => (s, [])
   | i :: is, s =>
     if (s.iout i).isSome then leftovers o is s
     else
-      let (s1, e1) := completeItem s i o false
+      let (s1, e1) := completeItem s.items.length s i o false
       let (s2, e2) := leftovers o is s1
       (s2, e1 ++ e2)
 
@@ -210,7 +259,7 @@ def setAllLoop : List Nat → St → St × List Ev
   | i :: is, s =>
     if (s.iout i).isSome then setAllLoop is s
     else
-      let (s1, e1) := completeItem s i (.val (s.payload i)) true
+      let (s1, e1) := completeItem s.items.length s i (.val (s.payload i)) true
       let (s2, e2) := setAllLoop is s1
       (s2, e1 ++ e2)
 
@@ -222,13 +271,13 @@ def act1 (b : Nat) (a : Act) (s : St) : St × List Ev × Option Err :=
     | none => (s, [], none)
     | some i =>
       if (s.iout i).isSome then (s, [], some .already)
-      else let (s1, e1) := completeItem s i (.val v) true; (s1, e1, none)
+      else let (s1, e1) := completeItem s.items.length s i (.val v) true; (s1, e1, none)
   | .setError k e =>
     match (s.bitems b)[k]? with
     | none => (s, [], none)
     | some i =>
       if (s.iout i).isSome then (s, [], some .already)
-      else let (s1, e1) := completeItem s i (.err (.user e)) true; (s1, e1, none)
+      else let (s1, e1) := completeItem s.items.length s i (.err (.user e)) true; (s1, e1, none)
   | .setAll => let (s1, e1) := setAllLoop (s.bitems b) s; (s1, e1, none)
   | .newItem p =>
     match newItemOn s s.active p none (some b) with
@@ -253,7 +302,7 @@ def debugFlush : List Nat → St → St × List Ev × Option Err
   | i :: is, s =>
     if (s.iout i).isSome then (s, [], some .already)
     else
-      let (s1, e1) := completeItem s i (.val (s.payload i)) false
+      let (s1, e1) := completeItem s.items.length s i (.val (s.payload i)) false
       let (s2, e2, r) := debugFlush is s1
       (s2, e1 ++ e2, r)
 
@@ -298,8 +347,8 @@ def errOfCancel : Option Nat → Err
 /-- one operation of the history -/
 def step (scripts : List Script) (s : St) (op : Op) : St × Res × List Ev :=
   match op with
-  | .add p spawn =>
-    match newItemOn s s.active p spawn none with
+  | .add p spawn link =>
+    match newItemOn s s.active p spawn none link with
     | some (s1, e1) => (s1, .created s.items.length, e1)
     | none => (s, .raised .assertAdd, [])
   | .addTo b p =>
@@ -316,7 +365,7 @@ def step (scripts : List Script) (s : St) (op : Op) : St × Res × List Ev :=
       if B.out.isSome then (s, .raised .batching, [])
       else
         let (s1, e1) := compute scripts s b     -- self.error()
-        (s1.clearItems b, .unit, e1)            -- self.items.clear()
+        (s1.clearUnlessKept s.keep b, .unit, e1)   -- if not KEEP_DEPENDENCIES: self.items.clear()
   | .cancel b e =>       -- batching.py:96-107
     match s.batches[b]? with
     | none => (s, .invalid, [])
@@ -333,7 +382,7 @@ def step (scripts : List Script) (s : St) (op : Op) : St × Res × List Ev :=
       else if (s.bout it.batch).isSome then (s, readValue (s.iout i), [])
       else
         let (s1, e1) := compute scripts s it.batch
-        let s2 := s1.clearItems it.batch
+        let s2 := s1.clearUnlessKept s.keep it.batch
         (s2, readValue (s2.iout i), e1)
   | .batchValue b =>
     match s.batches[b]? with
@@ -384,6 +433,7 @@ nothing of the model's code above is used below - only the accessors of a snapsh
 
 def St.ibatch (s : St) (i : Nat) : Nat := match s.items[i]? with | some it => it.batch | none => 0
 def St.ispawn (s : St) (i : Nat) : Option Nat := match s.items[i]? with | some it => it.spawn | none => none
+def St.ilink (s : St) (i : Nat) : Option Link := match s.items[i]? with | some it => it.link | none => none
 
 /-- shape of a snapshot between two operations: the active batch exists and is pending; an item belongs to an
     existing batch, is listed in `batch.items` while that batch is pending, is complete iff its batch is finished
@@ -407,7 +457,7 @@ def Ext (s t : St) : Prop :=
   (∀ b, b < s.batches.length → ((s.bout b).isSome → t.bout b = s.bout b) ∧ s.runs b ≤ t.runs b) ∧
   (∀ i, i < s.items.length →
       t.ibatch i = s.ibatch i ∧ t.payload i = s.payload i ∧ t.ispawn i = s.ispawn i ∧
-      ((s.iout i).isSome → t.iout i = s.iout i))
+      ((s.iout i).isSome → t.iout i = s.iout i) ∧ t.ilink i = s.ilink i)
 
 instance (s t : St) : Decidable (Ext s t) := by unfold Ext; infer_instance
 
@@ -464,10 +514,10 @@ def opClause (pre : St) (ob : Obs) : Option String :=
   let post := ob.post
   let noop : Bool := post == pre && ob.evs.isEmpty
   match ob.op with
-  | .add p spawn =>
+  | .add p spawn link =>
     let i := pre.items.length
     if ob.res ≠ .created i then some "add-result"
-    else if post.items[i]? ≠ some { batch := pre.active, payload := p, spawn := spawn, out := none } then some "add-joins-active"
+    else if post.items[i]? ≠ some { batch := pre.active, payload := p, spawn := spawn, link := link, out := none } then some "add-joins-active"
     else if post.active ≠ pre.active then some "add-joins-active"
     else none
   | .addTo b p =>
@@ -478,7 +528,7 @@ def opClause (pre : St) (ob : Obs) : Option String :=
     else
       let i := pre.items.length
       if ob.res ≠ .created i then some "add-result"
-      else if post.items[i]? ≠ some { batch := b, payload := p, spawn := none, out := none } then some "add-result"
+      else if post.items[i]? ≠ some { batch := b, payload := p, spawn := none, link := none, out := none } then some "add-result"
       else none
   | .flush b =>
     if pre.batches.length ≤ b then (if ob.res = .invalid ∧ noop then none else some "invalid")
@@ -550,10 +600,10 @@ def watchRun (pre : St) : List Obs → Option String
     | none => watchRun ob.post obs
 
 /-- `Spec.C11`: the whole history is accepted -/
-def spec (k : Kind) (obs : List Obs) : Bool := (watchRun (init k) obs).isNone
+def spec (k : Kind) (obs : List Obs) (keep : Bool := false) : Bool := (watchRun (init k keep) obs).isNone
 
-def specClause (k : Kind) (obs : List Obs) : String :=
-  match watchRun (init k) obs with
+def specClause (k : Kind) (obs : List Obs) (keep : Bool := false) : String :=
+  match watchRun (init k keep) obs with
   | none => "ok"
   | some c => c
 
